@@ -10,11 +10,11 @@ let dial_of = function
 let vk_of = function
   | "ok" -> VOk | "wrongid" -> VWrongId | "badtag" -> VBadTag | "badsig" -> VBadSig | "auth" -> VAuth
   | "invalid" -> VInvalid | "garbage" -> VGarbage | "peerclose" -> VPeerClose | "peerreset" -> VPeerReset
-  | "http4xx" -> VHttp4xx | _ -> failwith "vkind"
+  | "http4xx" -> VHttp4xx | "okfin" -> VOkFin | "okrst" -> VOkRst | _ -> failwith "vkind"
 let vk_s = function
   | VOk -> "ok" | VWrongId -> "wrongid" | VBadTag -> "badtag" | VBadSig -> "badsig" | VAuth -> "auth"
   | VInvalid -> "invalid" | VGarbage -> "garbage" | VPeerClose -> "peerclose" | VPeerReset -> "peerreset"
-  | VHttp4xx -> "http4xx"
+  | VHttp4xx -> "http4xx" | VOkFin -> "okfin" | VOkRst -> "okrst"
 let verif_of s = match Stdlib.String.split_on_char ':' s with
   | [k; d] -> ((vk_of k, n_of_dec d), n_of_dec "0")
   | [k; d; v] -> ((vk_of k, n_of_dec d), n_of_dec v) | _ -> failwith "verif"
